@@ -50,6 +50,7 @@ def run(ctx):
     ctx.rule("R1.reentry", "no user-code point while a pool guard (MutexGuard/RefMut/Ref) is live", floor=20)
     ctx.rule("R2.poison", "no user-code point outside catch_unwind while a MutexGuard is live", floor=8)
     ctx.rule("R3.split-update", "no persistent writes both before and after an uncontained user-code point inside one pool/slab operation", floor=4)
+    ctx.rule("R3.before-ok-premise", "the callees whose writes before the user initialiser are excused (R3 exception table) leave the pool self-consistent: every slab-vector change is followed in the same function by update_slab_count(slabs.len())", floor=1)
     ctx.rule("R4.restore-before-destroy", "Slab::remove: tag, free-list and count writes dominate the payload destruction; nothing persistent follows it", floor=2)
     ctx.rule("R5.containment", "thread-safe insert_with*/with_iter: closure only reachable through catch_unwind; no pool guard live at resume_unwind", floor=7)
 
@@ -185,6 +186,9 @@ def run(ctx):
                    f"after it: own blocks {after}, inside the callee: {cb_after}" +
                    ("; an unwind at that point leaves the counters/vacancy index disagreeing with the slabs" if bad else ""))
 
+    from .c02 import slab_vector_pairing
+    slab_vector_pairing(ctx, prog, "R3.before-ok-premise", ("allocate_slab_for_insert",))
+
     # ---------------- R4
     rem = prog.one("opaque::slab::Slab::remove")
     if rem is None:
@@ -238,3 +242,11 @@ def run(ctx):
         ctx.ob("R5.containment", f"{short(b.key)}.guard-released-before-resume", ok, b.loc(ru[0][1]["span"]) if ru else b.loc(),
                f"resume_unwind sites {len(ru)}; guards live there: {live_at or 'none'}" +
                ("" if ok else " - the guard is dropped by the unwinder while panicking, which poisons the mutex"))
+
+    # ---------------- rules shared with the sibling properties anchored in the same functions
+    ctx.import_rules("C02", {
+        "R1.dropper-pairing": "a dropper armed before the user initialiser runs the payload destructor on uninitialised memory when the initialiser panics",
+        "R4.slab-count": "a counter or free-list write made before the user initialiser survives its panic",
+        "R4.pool-length": "same, at pool level",
+        "R5.vacancy": "vacancy bookkeeping split around user code leaves the tracker and the slabs disagreeing after a panic",
+    })
